@@ -17,6 +17,7 @@ import (
 
 type chanCase struct {
 	id      uintptr
+	ptr     unsafe.Pointer
 	send    bool
 	capN    int
 	lenf    func() int
@@ -60,6 +61,9 @@ var closedChans []uintptr
 func chanID[C any](ch C) uintptr { return *(*uintptr)(unsafe.Pointer(&ch)) }
 
 //go:norace
+func chanPtr[C any](ch C) unsafe.Pointer { return *(*unsafe.Pointer)(unsafe.Pointer(&ch)) }
+
+//go:norace
 func isClosed(id uintptr) bool {
 	for _, c := range closedChans {
 		if c == id {
@@ -71,7 +75,7 @@ func isClosed(id uintptr) bool {
 
 //go:norace
 func SendCase[C ~chan V | ~chan<- V, V any](ch C, v V) Case {
-	c := &chanCase{send: true, id: chanID(ch), capN: cap(ch)}
+	c := &chanCase{send: true, id: chanID(ch), ptr: chanPtr(ch), capN: cap(ch)}
 	c.lenf = func() int { return len(ch) }
 	c.trySend = func() bool {
 		select {
@@ -91,7 +95,7 @@ func SendCase[C ~chan V | ~chan<- V, V any](ch C, v V) Case {
 //go:norace
 func RecvCase[C ~chan V | ~<-chan V, V any](ch C) *RecvC[V] {
 	r := &RecvC[V]{}
-	c := &chanCase{id: chanID(ch), capN: cap(ch)}
+	c := &chanCase{id: chanID(ch), ptr: chanPtr(ch), capN: cap(ch)}
 	c.lenf = func() int { return len(ch) }
 	c.tryRecv = func() bool {
 		select {
@@ -280,7 +284,7 @@ func runChanOp(op *chanOp) int {
 	// everything this thread did so far happens-before whatever a rendezvous partner does next
 	for _, c := range op.cases {
 		if c.id != 0 && c.capN == 0 {
-			raceReleaseAddr(c.id)
+			raceReleaseAddr(c.ptr)
 		}
 	}
 	t.pend = &Op{Kind: kind, ch: op}
@@ -290,7 +294,7 @@ func runChanOp(op *chanOp) int {
 		// a partner completed this operation for us
 		t.handed = false
 		c := op.cases[t.hcase]
-		raceAcquireAddr(c.id)
+		raceAcquireAddr(c.ptr)
 		if !c.send {
 			c.deliver(t.hval, t.hok)
 		}
@@ -340,8 +344,8 @@ func runChanOp(op *chanOp) int {
 		u, j := s.partner(t, c.id, false, s.pick(n))
 		u.handed, u.hcase, u.hval, u.hok = true, j, c.val(), true
 		s.sync(t, u)
-		raceAcquireAddr(c.id)
-		raceReleaseAddr(c.id)
+		raceAcquireAddr(c.ptr)
+		raceReleaseAddr(c.ptr)
 		return k
 	}
 	// receive
@@ -357,7 +361,7 @@ func runChanOp(op *chanOp) int {
 	if closed {
 		// closed unbuffered channel: zero value, ok=false (senders parked on it panic on their own)
 		c.deliver(nil, false)
-		raceAcquireAddr(c.id)
+		raceAcquireAddr(c.ptr)
 		return k
 	}
 	n := 0
@@ -375,8 +379,8 @@ func runChanOp(op *chanOp) int {
 	c.deliver(u.pend.ch.cases[j].val(), true)
 	u.handed, u.hcase = true, j
 	s.sync(t, u)
-	raceAcquireAddr(c.id)
-	raceReleaseAddr(c.id)
+	raceAcquireAddr(c.ptr)
+	raceReleaseAddr(c.ptr)
 	return k
 }
 
